@@ -196,13 +196,56 @@ Proof. unfold h_preset. intros H. destruct args as [|a [|b r]]; bad_tac. Qed.
 Lemma h_offset_bad s e args s' : h_offset orc cf s e args = (s', RBad) -> s' = s.
 Proof. unfold h_offset. intros H. destruct args as [|a [|b r]]; bad_tac. Qed.
 
-Lemma h_programtrack_bad s e args s' : h_programtrack ops orc cf s e args = (s', RBad) -> s' = s.
-Proof. unfold h_programtrack. intros H. destruct args as [|a r]; bad_tac. Qed.
+(* arithmetic law used by _programTrack: the time of point 0 of a trajectory whose start time is not in
+   the past is not in the past either ( start + 0 * gap ); holds for binary64 and for the reals
+   (Proofs/MsvGen.v) *)
+Definition pt_law : Prop := forall t0 now, nlt ops t0 now = false ->
+  nlt ops (nadd ops t0 (nmul ops (nofZ ops 0) (c_gap cf))) now = false.
 
-Lemma dispatch_bad h f s e args s' :
+Lemma pt_book_bad e tk tid pid st tk' : pt_law -> pt_book ops orc cf e tk tid pid st = PtBad tk' -> tk' = tk.
+Proof.
+  intros Hlaw. unfold pt_book, pt_stage1.
+  destruct (zlist_eqb st [42]).
+  - destruct (negb (opt_z_eqb tid (tk_id tk))); [intros H; injection H as <-; reflexivity|].
+    destruct (tk_pid tk) as [p|]; [|discriminate].
+    destruct (negb (pid =? p + 1)); [intros H; injection H as <-; reflexivity|].
+    destruct (tk_start tk) as [start|]; [|discriminate].
+    unfold pt_finish. destruct (nlt ops _ (e_now e)); [intros H; injection H as <-; reflexivity|].
+    destruct (_ <? _)%nat; [destruct (e_pt_ok e)|]; discriminate.
+  - destruct (pyfloat orc st) as [t0|]; [|intros H; injection H as <-; reflexivity].
+    destruct (nlt ops t0 (e_now e)) eqn:Hp; [intros H; injection H as <-; reflexivity|].
+    destruct (pid =? 0) eqn:Hpid; cbn [negb]; [|intros H; injection H as <-; reflexivity].
+    apply Z.eqb_eq in Hpid. subst pid. unfold pt_finish. rewrite (Hlaw t0 (e_now e) Hp).
+    destruct (_ <? _)%nat; [destruct (e_pt_ok e)|]; discriminate.
+Qed.
+
+Lemma set_trk_same (sv : servo T) : set_trk sv (sv_mode sv) (sv_trk sv) = sv.
+Proof. destruct sv. reflexivity. Qed.
+
+Lemma set_servo_same (s : sys T) i sv : nth_error (s_servos s) i = Some sv -> set_servo s i sv = s.
+Proof. intros H. destruct s. unfold set_servo. cbn in *. f_equal. apply upd_same_id. exact H. Qed.
+
+Lemma h_programtrack_bad s e args s' : pt_law -> h_programtrack ops orc cf s e args = (s', RBad) -> s' = s.
+Proof.
+  intros Hlaw. unfold h_programtrack, bad. destruct args as [|sid rest]; [intros H; injection H as <-; reflexivity|].
+  destruct (find_servo sid 0 (c_servos cf)) as [[i sc]|]; [|intros H; injection H as <-; reflexivity].
+  destruct (negb (sc_pt sc)); [intros H; injection H as <-; reflexivity|].
+  destruct (negb _); [intros H; injection H as <-; reflexivity|].
+  destruct rest as [|tid [|pid [|st toks]]]; try (intros H; injection H as <-; reflexivity).
+  destruct (nth_error (s_servos s) i) as [sv|] eqn:Hsv; [|discriminate].
+  destruct (pyint orc tid) as [tidz|]; [|intros H; injection H as <-; reflexivity].
+  destruct (pyint orc pid) as [pidz|]; [|intros H; injection H as <-; reflexivity].
+  destruct (pt_coords ops orc toks (sv_offs sv)) as [[l|]|]; try discriminate;
+    [|intros H; injection H as <-; reflexivity].
+  destruct (pt_book ops orc cf e (sv_trk sv) tidz pidz st) as [tk|tk|tk] eqn:Hb; try discriminate.
+  intros H. injection H as <-. apply pt_book_bad in Hb; [|exact Hlaw]. subst tk.
+  rewrite set_trk_same. apply set_servo_same. exact Hsv.
+Qed.
+
+Lemma dispatch_bad h f s e args s' : pt_law ->
   dispatch ops orc cf h = Some f -> f s e args = (s', RBad) -> s' = s.
 Proof.
-  unfold dispatch. intros Hd Hf.
+  unfold dispatch. intros Hlaw Hd Hf.
   repeat match type of Hd with
   | (if ?c then _ else _) = _ => destruct c
   end; try discriminate; injection Hd as <-;
@@ -232,10 +275,10 @@ Proof.
   rewrite prefixb_app in H. discriminate.
 Qed.
 
-Lemma execute_bad s e msg s' : replies_distinct = true ->
+Lemma execute_bad s e msg s' : pt_law -> replies_distinct = true ->
   execute ops orc cf s e msg = (s', OReply (c_bad cf ++ crlf)) -> s' = s.
 Proof.
-  intros Hd. unfold execute. destruct (tokens msg) as [|c args]; [discriminate|].
+  intros Hlaw Hd. unfold execute. destruct (tokens msg) as [|c args]; [discriminate|].
   destruct (assoc c (c_commands cf)) as [h|]; [|intros H; injection H as <-; reflexivity].
   destruct (dispatch ops orc cf h) as [f|] eqn:Hf; [|discriminate].
   destruct (f s e args) as [s1 [| body |]] eqn:Hr; intros H; try discriminate.
@@ -243,18 +286,18 @@ Proof.
   - injection H as <- H. exfalso. eapply good_not_bad; eauto.
 Qed.
 
-Lemma parse_bad s e b s' : replies_distinct = true ->
+Lemma parse_bad s e b s' : pt_law -> replies_distinct = true ->
   parse ops orc cf s e b = (s', OReply (c_bad cf ++ crlf)) -> dev s' = dev s /\ s_msg s' = [].
 Proof.
-  intros Hd. unfold parse. destruct (ends_crlf (s_msg s ++ [b])); [|discriminate].
-  intros H. apply execute_bad in H; [|exact Hd]. subst s'. split; reflexivity.
+  intros Hlaw Hd. unfold parse. destruct (ends_crlf (s_msg s ++ [b])); [|discriminate].
+  intros H. apply execute_bad in H; [|exact Hlaw|exact Hd]. subst s'. split; reflexivity.
 Qed.
 
 (* ---------------------------------------------------------------------------------------------- *)
 (* PRESET *)
 
 Definition preset_servo (sv : servo T) (l : list T) : servo T :=
-  mk_servo 0 40 (sv_coords sv) l (sv_offs sv) (sv_last sv) None false.
+  mk_servo 0 40 (sv_coords sv) l (sv_offs sv) (sv_last sv) None false (sv_trk sv).
 
 Lemma h_preset_cases s e sid toks i sc xs sv :
   toks <> [] ->
@@ -478,7 +521,7 @@ Lemma get_status_sticky sc e sv :
   sv_mode sv = 20 \/ sv_mode sv = 30 \/ sv_mode sv = 50 -> sv_mode (get_status sc e sv) = sv_mode sv.
 Proof.
   intros H. unfold MsvModel.get_status.
-  destruct (sv_mode sv =? 50) eqn:E50; [destruct (_ && _); reflexivity|].
+  destruct (sv_mode sv =? 50) eqn:E50; [destruct (tk_pt (sv_trk sv)); destruct (tk_times (sv_trk sv)); reflexivity|].
   destruct ((sv_mode sv =? 20) || (sv_mode sv =? 30)) eqn:E23; [reflexivity|].
   exfalso. apply orb_false_iff in E23. lia.
 Qed.
@@ -571,7 +614,7 @@ Qed.
 
 Definition stow_servo (e : env T) (sv : servo T) : servo T :=
   mk_servo 0 (sv_future sv) (sv_coords sv) (sv_cmd sv) (sv_offs sv) (sv_last sv)
-           (Some (e_tick e + c_timer cf, 20)) (sv_alias sv).
+           (Some (e_tick e + c_timer cf, 20)) (sv_alias sv) (sv_trk sv).
 
 Lemma h_stow_good_servo s e sid pos i sc s' body :
   find_servo sid 0 (c_servos cf) = Some (i, sc) ->
